@@ -53,11 +53,22 @@ type ParReq struct {
 	Gate     GateSpec `json:"gate"`
 }
 
+// RegChange: the test side changes the registration of a client (its post_logout_redirect_uris) between two request
+// starts of the step - while the requests started earlier are parked inside the library or have been answered. The storage
+// replaces the record (a registration a parked call has already read keeps its old content, as a row read from a database does).
+type RegChange struct {
+	After  int      `json:"after"`          // applied when After requests have been started, before the next one is
+	Client string   `json:"client"`         // client-a | client-b
+	URIs   []string `json:"uris,omitempty"` // the post_logout_redirect_uris after the change
+	Kind   string   `json:"kind,omitempty"` // remove | add | replace | clear (label only)
+}
+
 type Par struct {
-	Reqs     []ParReq `json:"reqs"`              // started in this order
-	Release  int      `json:"release,omitempty"` // selects the order in which the parked calls are released
-	WrongKey string   `json:"wrong_key,omitempty"`
-	WrongAlg string   `json:"wrong_alg,omitempty"`
+	Reqs     []ParReq   `json:"reqs"` // started in this order
+	Change   *RegChange `json:"change,omitempty"`
+	Release  int        `json:"release,omitempty"` // selects the order in which the parked calls are released
+	WrongKey string     `json:"wrong_key,omitempty"`
+	WrongAlg string     `json:"wrong_alg,omitempty"`
 }
 
 const (
@@ -204,7 +215,61 @@ func genInterleave(t *rapid.T) Case {
 		}
 	}
 	par.Release = rapid.IntRange(0, 5).Draw(t, "release")
+	// the registration of a client changes while the step is under way (drawn last)
+	if rapid.IntRange(0, 19).Draw(t, "changed") < 7 {
+		par.Change = genRegChange(t, &c)
+		// the change matters most to a request whose view of the registration is (being) taken: hold the first one there
+		if rapid.Bool().Draw(t, "ch.hold-lookup") {
+			par.Reqs[0].Gate = GateSpec{Method: "GetClientByClientID", AtExit: rapid.IntRange(0, 2).Draw(t, "ch.exit") > 0}
+		}
+	}
 	return c
+}
+
+func genRegChange(t *rapid.T, c *Case) *RegChange {
+	reqs := c.Par.Reqs
+	ch := &RegChange{After: rapid.IntRange(1, len(reqs)-1).Draw(t, "ch.after")}
+	// the client of a request that starts after the change, and (preferably) the URI that request asks for
+	later := reqs[rapid.IntRange(ch.After, len(reqs)-1).Draw(t, "ch.for")]
+	ch.Client = later.Client
+	if ch.Client != clientA && ch.Client != clientB {
+		ch.Client = rapid.SampledFrom([]string{clientA, clientB}).Draw(t, "ch.client")
+	}
+	cur := c.Clients[0].PostLogoutURIs
+	if ch.Client == clientB {
+		cur = c.Clients[1].PostLogoutURIs
+	}
+	without := func(victim string) []string {
+		out := []string{}
+		for _, u := range cur {
+			if u != victim {
+				out = append(out, u)
+			}
+		}
+		return out
+	}
+	victim := ""
+	if len(cur) > 0 {
+		victim = rapid.SampledFrom(cur).Draw(t, "ch.victim")
+		if contains(cur, later.URI) && rapid.IntRange(0, 3).Draw(t, "ch.victim-asked") > 0 {
+			victim = later.URI
+		}
+	}
+	ch.Kind = rapid.SampledFrom([]string{"remove", "remove", "remove", "replace", "replace", "add", "clear"}).Draw(t, "ch.kind")
+	if victim == "" && ch.Kind != "add" {
+		ch.Kind = "add"
+	}
+	switch ch.Kind {
+	case "remove":
+		ch.URIs = without(victim)
+	case "replace":
+		ch.URIs = append(without(victim), genRegistered(t, "ch.new"))
+	case "add":
+		ch.URIs = append(append([]string{}, cur...), genRegistered(t, "ch.new"))
+	default:
+		ch.URIs = nil
+	}
+	return ch
 }
 
 // ---- execution ------------------------------------------------------------------
@@ -314,13 +379,14 @@ func gateName(g GateSpec) string {
 
 // parAttempt is one request of the step with its model verdict and its answer.
 type parAttempt struct {
-	req   ParReq
-	in    judgeIn
-	v     *verdict
-	q     url.Values
-	ag    *vkit.Agent
-	resp  *vkit.Resp
-	claim int // journal entry (index into the step's termination calls) that is this request's own, -1: none
+	req    ParReq
+	in     judgeIn
+	v      *verdict
+	q      url.Values
+	ag     *vkit.Agent
+	resp   *vkit.Resp
+	claim  int    // journal entry (index into the step's termination calls) that is this request's own, -1: none
+	judged string // with a registration change in the step: which registration the model used
 }
 
 func stepDesc(atts []*parAttempt, run *parRun, release int) string {
@@ -436,7 +502,6 @@ func runPar(c Case) *vkit.Result {
 			}
 		}
 		a.in = in
-		a.v = expect(in)
 		a.ag = vkit.NewAgent(reqSUT)
 		a.ag.Host = c.Prov.Host
 		atts = append(atts, a)
@@ -456,7 +521,36 @@ func runPar(c Case) *vkit.Result {
 	run := &parRun{gateOf: map[int]int{}}
 	events := 0
 	overlap := false
+	// the registrations after the change, and which requests were judged by which
+	byIDNew := byID
+	changedAt := -1                    // index of the first request started after the change (-1: no change took place)
+	finishedAtChange := map[int]bool{} // requests answered before the change
+	if ch := p.Change; ch != nil && byID[ch.Client] == nil {
+		res.Grey = true
+		res.Label("malformed-case")
+		return res
+	}
 	for k, a := range atts {
+		if ch := p.Change; ch != nil && ch.After == k && k > 0 {
+			if run.loose {
+				res.Label("par:change-skipped:storage-not-quiescent")
+			} else {
+				// every request in flight is parked in a gate (or answered): nobody reads the storage right now
+				run.poll()
+				for j := 0; j < k; j++ {
+					finishedAtChange[j] = run.fin[j]
+				}
+				ns := *byID[ch.Client]
+				ns.PostLogoutURIs = append([]string{}, ch.URIs...)
+				st.Clients[ch.Client] = &ns
+				byIDNew = map[string]*vkit.ClientSpec{}
+				for id, cl := range byID {
+					byIDNew[id] = cl
+				}
+				byIDNew[ch.Client] = &ns
+				changedAt = k
+			}
+		}
 		if g := resolve(a.req.Gate); g.Method != "" && run.loose {
 			res.Label("par:gate-skipped:storage-not-quiescent")
 		} else if g.Method != "" {
@@ -527,6 +621,58 @@ func runPar(c Case) *vkit.Result {
 	note := "; the step: " + stepDesc(atts, run, p.Release)
 
 	// ---- every answer against the sequential oracle for that request's own parameters
+	if changedAt >= 0 {
+		ch := p.Change
+		note += fmt.Sprintf("; after request %d was started (and before request %d was) the post_logout_redirect_uris of %s were changed from %q to %q (%s)", changedAt, changedAt+1, ch.Client, byID[ch.Client].PostLogoutURIs, ch.URIs, ch.Kind)
+		res.Label("par:change:" + ch.Kind)
+	}
+	// the model: a request that started after the change completed is judged against the new registration, one answered
+	// before it against the old one; for a request in flight across the change either registration may have been read
+	for k, a := range atts {
+		switch {
+		case changedAt < 0 || finishedAtChange[k]:
+			a.v = expect(a.in)
+		case k >= changedAt:
+			a.in.byID = byIDNew
+			a.v = expect(a.in)
+			a.judged = "new-registration"
+		default:
+			vOld := expect(a.in)
+			a.in.byID = byIDNew
+			a.v = expect(a.in)
+			a.judged = "either-registration"
+			if vOld.ex.why != a.v.ex.why {
+				a.v.ex.why = a.v.ex.why + "|before-the-change:" + vOld.ex.why
+			}
+			a.v.ex.mustAccept = a.v.ex.mustAccept && vOld.ex.mustAccept
+			a.v.ex.mustReject = a.v.ex.mustReject && vOld.ex.mustReject
+			for _, o := range vOld.ex.allowed {
+				dup := false
+				for _, n := range a.v.ex.allowed {
+					dup = dup || n == o
+				}
+				if !dup {
+					a.v.ex.allowed = append(a.v.ex.allowed, o)
+				}
+			}
+		}
+		if changedAt >= 0 && finishedAtChange[k] {
+			a.judged = "old-registration"
+		}
+		if a.judged != "" {
+			res.Label("par:judged-against:" + a.judged)
+			if a.req.Client == p.Change.Client && a.req.URI != "" {
+				was, _ := registered(byID[p.Change.Client], a.req.URI)
+				is, _ := registered(byIDNew[p.Change.Client], a.req.URI)
+				switch {
+				case was && !is:
+					res.Label("par:judged-against:" + a.judged + "/asks-for-removed-uri")
+				case !was && is:
+					res.Label("par:judged-against:" + a.judged + "/asks-for-added-uri")
+				}
+			}
+		}
+	}
 	var accepted []*parAttempt
 	var outcomes []string
 	for k, a := range atts {
@@ -662,14 +808,17 @@ func runPar(c Case) *vkit.Result {
 		"router:"+c.Prov.Router, "mount:"+mountName(c.Prov), fmt.Sprintf("extras:%v", c.Prov.Extras), "issuer:"+c.Prov.IssuerMode)
 	res.NonTrivial = overlap && len(atts) >= 2
 	res.Key = fmt.Sprintf("par|%s/%s|x=%v|%s|%s|%s|rel=%d", c.Prov.Router, mountName(c.Prov), c.Prov.Extras, strings.Join(vs, ","), strings.Join(gs, ","), strings.Join(outcomes, ","), p.Release)
+	if changedAt >= 0 {
+		res.Key += fmt.Sprintf("|change=%s@%d", p.Change.Kind, changedAt)
+	}
 	res.Info = map[string]any{"step": stepDesc(atts, run, p.Release), "terminate": term}
 	return res
 }
 
 const rulePar = "concurrent steps (TestInterleave): provider as in TestRapid (router x mounting (25%) x issuer mode x host x TerminateSessionFromRequest capability x default logout URI x key/alg x two generated client registrations x storage error style), one step of 2-3 end_session requests in flight at once: the first = hint (valid / expired / absent / signed by an unpublished key) of a generated user at a generated client, the later ones a generated variant of it (same session: same subject and client; other user; other client; no hint, client_id only; arbitrary), each with ITS OWN post_logout_redirect_uri (50% a registered URI of its client, 17% none, 33% the TestRapid URI grammar of near misses / globs / other client's URIs) and ITS OWN state (distinct, equal, empty, special characters, arbitrary), client_id parameter absent / azp / contradicting, GET or POST, 17% with further parameters (logout_hint, ui_locales, unknown names naming users / clients / URIs); start order generated; " +
-	"the harness owns the interleaving: the first request started (later ones with probability 1/3) is parked in a generated storage call (TerminateSession / TerminateSessionFromRequest, GetClientByClientID, KeySet; on entry or on exit; next or next-but-one call) while the next request is started and runs until it answers or parks; parked calls are released in a generated order; " +
-	"oracle independent of the schedule: every request is judged by the sequential oracle against its own parameters (must-reject binds in every interleaving; Location = its own requested registered URI or the default, its own state appended unchanged; must-accept as sequentially) and the storage journal of the step holds exactly one termination call per accepted request naming that request's proven subject and client (TerminateSessionFromRequest: returning the redirect that request was answered with), none for refused ones; " +
-	"non-trivial = a request was started while another one was parked inside the library; distinct = (router, mounting, capability, per-request variant / hint / URI relation / state class, gate positions, outcomes, release order)"
+	"the harness owns the interleaving: the first request started (later ones with probability 1/3) is parked in a generated storage call (TerminateSession / TerminateSessionFromRequest, GetClientByClientID, KeySet; on entry or on exit; next or next-but-one call) while the next request is started and runs until it answers or parks; parked calls are released in a generated order; 35% of the steps change a registration on the way: after k requests were started (parked or answered; the storage is quiescent) the test side replaces the post_logout_redirect_uris of the client of a later request (URI removed - preferably the one that later request asks for - / replaced / added / all removed), half of these steps hold the first request on GetClientByClientID (2/3 on exit: registration read, answer delayed); " +
+	"oracle independent of the schedule: every request is judged by the sequential oracle against its own parameters (must-reject binds in every interleaving; Location = its own requested registered URI or the default, its own state appended unchanged; must-accept as sequentially) and the storage journal of the step holds exactly one termination call per accepted request naming that request's proven subject and client (TerminateSessionFromRequest: returning the redirect that request was answered with), none for refused ones; with a registration change: a request that STARTED after the change completed is judged against the new registration (redirect to a removed URI = violation, an added one is honoured), one answered before it against the old one, one in flight across the change against either (allowed targets of both, must-accept / must-reject only where both agree); " +
+	"non-trivial = a request was started while another one was parked inside the library; distinct = (router, mounting, capability, per-request variant / hint / URI relation / state class, gate positions, outcomes, release order, kind and position of the registration change)"
 
 var propIL = vkit.Prop[Case]{ID: "C18", Rule: rulePar, Gen: genInterleave, Run: run}
 
